@@ -96,3 +96,90 @@ Theorem C08_nodes_by_distances_complete :
   (length stored <= cap maxn -> res = stored).
 Proof. exact nbd_complete. Qed.
 Print Assumptions C08_nodes_by_distances_complete.
+
+(* ------------------------------------------------------------------------------------------ *)
+(* The three public iterators (Proofs/KBucketGap.v).  closest_keys, closest_values and
+   closest_values_predicate share ClosestIter and differ in the projection applied to a bucket
+   before it is sorted (Model/KBucket.v: t_closest_keys, t_closest_values,
+   t_closest_values_predicate; t_closest is the same iteration yielding whole nodes). *)
+From Discv5V Require Import Proofs.KBucketGap.
+
+(* Each variant is the projection of the node sequence of t_closest - no element is lost, added or
+   reordered by projecting before sorting - and leaves the table in the same state (the same
+   pending nodes were applied). *)
+Theorem C08_variants_are_projections :
+  forall fixed predicate c t target now,
+  let rn := t_closest fixed c t target now in
+  t_closest_keys fixed c t target now = (fst rn, map nkey (snd rn)) /\
+  t_closest_values fixed c t target now =
+    (fst rn, map (fun n => {| cv_key := nkey n; cv_value := nval n |}) (snd rn)) /\
+  t_closest_values_predicate fixed predicate c t target now =
+    (fst rn, map (fun n => {| pv_key := nkey n; pv_match := predicate (nval n); pv_value := nval n |}) (snd rn)).
+Proof. exact closest_variants_spec. Qed.
+Print Assumptions C08_variants_are_projections.
+
+(* "The predicate variant yields the same sequence with correct match flags": the same (key, value)
+   sequence as closest_values and the same keys as closest_keys, every flag is the predicate
+   applied to the value it accompanies - for every predicate, table (no invariant needed), local id,
+   target and time. *)
+Theorem C08_predicate_variant_same_sequence_correct_flags :
+  forall fixed predicate c t target now,
+  let rp := t_closest_values_predicate fixed predicate c t target now in
+  let rv := t_closest_values fixed c t target now in
+  let rk := t_closest_keys fixed c t target now in
+  fst rp = fst rv /\ fst rp = fst rk /\
+  map (fun x => (pv_key x, pv_value x)) (snd rp) = map (fun x => (cv_key x, cv_value x)) (snd rv) /\
+  map pv_key (snd rp) = snd rk /\
+  map cv_key (snd rv) = snd rk /\
+  Forall (fun x => pv_match x = predicate (pv_value x)) (snd rp).
+Proof. exact predicate_variant_same_sequence. Qed.
+Print Assumptions C08_predicate_variant_same_sequence_correct_flags.
+
+(* Hence the predicate variant itself is the sorted full scan with flags: on a table satisfying the
+   C07 invariant it yields every stored (key, value) exactly once, in strictly increasing XOR
+   distance to the target, each with the value of the predicate on it. *)
+Theorem C08_predicate_variant_is_the_sorted_full_scan :
+  forall predicate c t target now,
+  TInv c t -> (local t < 2 ^ NUM_BUCKETS)%N -> (target < 2 ^ NUM_BUCKETS)%N ->
+  let t' := fst (t_closest_values_predicate true predicate c t target now) in
+  let out := snd (t_closest_values_predicate true predicate c t target now) in
+  Permutation (map (fun x => (pv_key x, pv_value x)) out) (map (fun n => (nkey n, nval n)) (all_nodes t')) /\
+  StronglySorted (fun a b => (N.lxor target (pv_key a) < N.lxor target (pv_key b))%N) out /\
+  Forall (fun x => pv_match x = predicate (pv_value x)) out /\
+  TInv c t'.
+Proof. exact predicate_variant_exact. Qed.
+Print Assumptions C08_predicate_variant_is_the_sorted_full_scan.
+
+(* ... and so are closest_keys (distinct keys) and closest_values. *)
+Theorem C08_keys_and_values_variants_are_the_sorted_full_scan :
+  forall c t target now,
+  TInv c t -> (local t < 2 ^ NUM_BUCKETS)%N -> (target < 2 ^ NUM_BUCKETS)%N ->
+  let t' := fst (t_closest true c t target now) in
+  let ks := snd (t_closest_keys true c t target now) in
+  let vs := snd (t_closest_values true c t target now) in
+  fst (t_closest_keys true c t target now) = t' /\ fst (t_closest_values true c t target now) = t' /\
+  Permutation ks (map nkey (all_nodes t')) /\ NoDup ks /\
+  StronglySorted (fun a b => (N.lxor target a < N.lxor target b)%N) ks /\
+  Permutation (map (fun x => (cv_key x, cv_value x)) vs) (map (fun n => (nkey n, nval n)) (all_nodes t')) /\
+  StronglySorted (fun a b => (N.lxor target (cv_key a) < N.lxor target (cv_key b))%N) vs.
+Proof. exact keys_values_variants_exact. Qed.
+Print Assumptions C08_keys_and_values_variants_are_the_sorted_full_scan.
+
+(* The hypotheses are satisfiable on a non-trivial instance: local id 5, four stored nodes in three
+   buckets (two of them in bucket 3, a low-index bucket 0 occupied), target 9, predicate "the value
+   id is even".  The predicate variant yields the keys by increasing distance to 9 with the flags. *)
+Example C08_predicate_variant_example :
+  let c := {| max_incoming := 16; pending_timeout := 60%N; bfilter := None; tfilter := None |} in
+  let ins t k v now := fst (t_insert_or_update c t k {| vid := v; vsub := None |} true false now) in
+  let t := (ins (ins (ins (ins (new_table 5) 12 2 1) 4 3 2) 14 4 3) 7 5 4)%N in
+  let predicate := fun v : val => N.even (vid v) in
+  TInv c t /\ (local t < 2 ^ NUM_BUCKETS)%N /\ (9 < 2 ^ NUM_BUCKETS)%N /\
+  map (fun x => (pv_key x, pv_match x, vid (pv_value x)))
+      (snd (t_closest_values_predicate true predicate c t 9%N 5%N))
+  = [(12, true, 2); (14, true, 4); (4, false, 3); (7, false, 5)]%N.
+Proof.
+  cbv zeta. split; [|split; [|split]]; [|vm_compute; reflexivity..].
+  repeat apply (t_insert_or_update_inv _ None _ (Proofs.KBucketInv.tm_None None _)).
+  apply TInv_new.
+Qed.
+Print Assumptions C08_predicate_variant_example.
